@@ -50,18 +50,6 @@ TOK = lambda c: "(%s || (%s)=='+' || (%s)=='-' || (%s)=='.' || (%s)=='e' || (%s)
 DELIM = lambda c: "((%s)=='+' || (%s)=='-' || (%s)=='.' || (%s)=='<' || (%s)=='>' || (%s)=='=' || (%s)==' ')" % ((c,) * 7)
 
 
-def scan_inv():
-    """invariants of the three digit-scanning loops of LPFreadValue (s walks the line, pos stays)"""
-    return [
-        IN("s"),
-        "g_off <= %s && %s <= g_len" % (S_OFF, S_OFF),
-        "(v_c0=='+' || v_c0=='-') ==> %s >= g_off + 1" % S_OFF,
-        "(%s > g_off) ==> s[-1] > ' '" % S_OFF,          # the last token character is no white space (one dereference only)
-        "(g_off + g_k < %s) ==> %s" % (S_OFF, TOK("v_k")),
-        "(!has_digits && g_off + g_k < %s) ==> !%s" % (S_OFF, DIG("v_k")),
-    ]
-
-
 STRCHR_LIT_UNWIND = [{"function": "strchr", "loop": 0}]
 
 instances = []
@@ -192,33 +180,38 @@ instances.append({
 })
 
 # ---- LPFreadValue -------------------------------------------------------------------------------------------------------
-instances.append({
-    "name": "readValue",
-    "function": "LPFreadValue<R>(char*& pos, SPxOut* spxout)  [spxlpbase_real.hpp]",
-    "defines": {"INST_readValue": ""},
-    "harness": "h_readValue", "enforce": "w_readValue",
-    "slices": COMMON + [S_readValue],
-    "loops": [
-        {"function": "LPFreadValue", "loop": 0, "locals": ["s", "has_digits"], "invariants": scan_inv(),
-         "assigns": ["s", "has_digits"], "decreases": "g_len - %s" % S_OFF},
-        {"function": "LPFreadValue", "loop": 1, "locals": ["s", "has_digits"], "invariants": scan_inv(),
-         "assigns": ["s", "has_digits"], "decreases": "g_len - %s" % S_OFF},
-        {"function": "LPFreadValue", "loop": 2, "locals": ["s", "has_digits", "has_emptyexponent"], "invariants": scan_inv(),
-         "assigns": ["s", "has_emptyexponent"], "decreases": "g_len - %s" % S_OFF},
-    ],
-    # the copy loop `for(t = tmp; pos != s; pos++) *t++ = *pos;` WRITES through a pointer it advances; a loop contract would havoc
-    # that pointer and every write through it becomes a case split over all objects (does not fit in memory).  It runs at most
-    # strlen(line) <= CAP-1 times, so it is unwound completely (with unwinding assertion) instead.
-    "unwind": CAP + 1,
-    "unwind_loops": [{"function": "LPFreadValue", "loop": 3}],
-    "min_obligations": 100,
-    "tier": "thorough",
-    "mutants": [
-        {"name": "no_terminator", "slice": "LPFreadValue.inc", "find": "*t = '\\0';", "replace": "*t = '0';"},
-        {"name": "sign", "slice": "LPFreadValue.inc", "find": "value = (*pos == '-') ? -1.0 : 1.0;", "replace": "value = (*pos == '+') ? -1.0 : 1.0;"},
-        {"name": "blank", "slice": "LPFreadValue.inc", "find": "if(LPFisSpace(*pos))\n      pos++;", "replace": "pos++;"},
-    ],
-})
+TOKCAP = 40
+
+
+def read_value(name, tokcap, extra_defs, tier, desc_extra):
+    return {
+        "name": name,
+        "function": "LPFreadValue<R>(char*& pos, SPxOut* spxout)  [spxlpbase_real.hpp]" + desc_extra,
+        "defines": dict({"INST_readValue": "", "TOKCAP": str(tokcap)}, **extra_defs),
+        "harness": "h_readValue", "enforce": "w_readValue",
+        "slices": COMMON + [S_readValue],
+        # The copy loop `for(t = tmp; pos != s; pos++) *t++ = *pos;` WRITES through a pointer it advances; a loop contract would havoc
+        # that pointer and every write through it becomes a case split over all objects (does not fit in memory).  All four loops run
+        # at most once per token character and the token is shorter than TOKCAP (precondition, ghost witness g_w), so they are
+        # unwound completely (with unwinding assertions); no pointer is havoc'd and every access resolves to the line or to tmp.
+        "unwind": tokcap + 1,
+        "unwind_loops": [{"function": "LPFreadValue", "loop": 0}, {"function": "LPFreadValue", "loop": 1},
+                         {"function": "LPFreadValue", "loop": 2}, {"function": "LPFreadValue", "loop": 3}],
+        "min_obligations": 100,
+        "tier": tier,
+        "mutants": [
+            {"name": "no_terminator", "slice": "LPFreadValue.inc", "find": "*t = '\\0';", "replace": "*t = '0';"},
+            {"name": "sign", "slice": "LPFreadValue.inc", "find": "value = (*pos == '-') ? -1.0 : 1.0;", "replace": "value = (*pos == '+') ? -1.0 : 1.0;"},
+            {"name": "blank", "slice": "LPFreadValue.inc", "find": "if(LPFisSpace(*pos))\n      pos++;", "replace": "pos++;"},
+            {"name": "drop_char", "slice": "LPFreadValue.inc", "find": "for(t = tmp; pos != s; pos++)", "replace": "for(t = tmp, pos++; pos != s; pos++)"},
+        ],
+    }
+
+
+instances.append(read_value("readValue", TOKCAP, {}, "quick", " for tokens shorter than %d characters" % TOKCAP))
+# scaled stand-in for the overflow of tmp: scratch buffer of 16 instead of SOPLEX_LPF_MAX_LINE_LEN bytes, tokens up to 23 characters
+instances.append(read_value("readValue_scaled", 24, {"SCALED_MAXLEN": "16"}, "thorough",
+                            " SCALED: SOPLEX_LPF_MAX_LINE_LEN set to 16, tokens shorter than 24 characters"))
 
 # ---- LPFreadColName -----------------------------------------------------------------------------------------------------
 instances.append({
@@ -297,7 +290,7 @@ unit = {
     "rmode": "double (IEEE, bit-precise); atof is a ghost-recording stub with unconstrained result",
     "defines": {"CAP": str(CAP)},
     "defines_small": {"CAP": "40"},
-    "flags": ["--bounds-check", "--pointer-check", "--signed-overflow-check", "--conversion-check", "--sat-solver", "cadical"],
+    "flags": ["--bounds-check", "--pointer-check", "--signed-overflow-check", "--conversion-check"],
     "timeout_s": 280,
     "constants": [
         {"name": "SOPLEX_LPF_MAX_LINE_LEN", "file": HPP, "regex": r"#define\s+SOPLEX_LPF_MAX_LINE_LEN\s+(\d+)"},
@@ -320,7 +313,8 @@ unit = {
         "atof, NameSet::number/num/add and LPColSetBase::add are ghost-recording stubs: they record the bytes they are handed at the ghost indices and return unconstrained values (NameSet::number assumed to return -1..num()-1, its documented range)",
         "logging dropped: SPX_MSG_WARNING expands to nothing, SPxOut::debug is an empty stub; assert() compiled out (NDEBUG semantics)",
         "line buffer capped at CAP=%d bytes (> SOPLEX_LPF_MAX_LINE_LEN); loop contracts are inductive, the cap bounds the object size only" % CAP,
-        "complete unwinding (with unwinding assertions) instead of a loop contract: the copy loop of LPFreadValue (bounded by the line length <= CAP; pos == line there), every loop of LPFhasKeyword (bounded by the length of the constant keyword literal), (strchr on string literals is written out loop-free for literals of up to 24 characters, asserted)",
+        "LPFreadValue is proved for tokens shorter than TOKCAP=%d characters only (ghost witness g_w): its copy loop writes through a pointer it advances, which CBMC's loop-contract havoc cannot handle, so that loop is unwound completely (with unwinding assertion); readValue_scaled repeats the proof with the scratch buffer scaled down to 16 bytes to reach the overflow of tmp - a scaled stand-in, not a statement about the real SOPLEX_LPF_MAX_LINE_LEN" % TOKCAP,
+        "complete unwinding (with unwinding assertions) instead of a loop contract: LPFhasKeyword for the bracket-free keyword \"end\" (bounded by the length of the literal); the keywords with optional sections carry loop contracts generated from the literal's structure; strchr on string literals is written out loop-free for literals of up to 24 characters (asserted)",
         "LPFreadInfinity is proved against the contract of its callee LPFhasKeyword (pos stays inside the line and does not move backwards), which the hasKeyword_inf instance proves for the literal \"inf[inity]\"",
         "R = double; `infinity` is SOPLEX_DEFAULT_INFINITY extracted from spxdefines.h",
     ],
